@@ -256,13 +256,15 @@ def abstract_encoders():
     ], trusted=True, name=ENC + '.timestamp(abstract)',
         doc='abstract view: dt_seconds is the whole-second instant with naive values read as UTC (C15 verifies the function)'))
 
-    is_dec = lambda v: isinstance(v, SOpaque) and v.kind == 'decimal'
+    import decimal as _dm
+    is_dec = lambda v: (isinstance(v, SOpaque) and v.kind == 'decimal') or isinstance(v, _dm.Decimal)
+    RAISES_DEC = RAISES + (_dm.InvalidOperation, ArithmeticError)
     out.append(Contract(ENC + '.decimal', [('value', T.decimal | T.int | T.str | T.none | T.float)], cases=[
-        Case('decimal', when=lambda c: is_dec(c.value) and wire.decimal_ok(c.value.t),
+        Case('decimal', when=lambda c: is_dec(c.value) and wire.decimal_ok(c.value),
              returns=lambda c: wire.decimal_bytes(c.st, c.value)),
-        Case('decimal-refused', when=lambda c: is_dec(c.value) and neg(wire.decimal_ok(c.value.t)), raises=RAISES),
+        Case('decimal-refused', when=lambda c: is_dec(c.value) and neg(wire.decimal_ok(c.value)), raises=RAISES_DEC),
         Case('not-a-decimal', when=lambda c: not is_dec(c.value), raises=TypeError),
-    ], trusted=True, name=ENC + '.decimal(abstract)',
+    ], name=ENC + '.decimal',
         doc='abstract view (scale octet + signed 32-bit unscaled value; the function itself goes through str(value): bounded stand-in)'))
     return out
 
@@ -270,6 +272,7 @@ def abstract_encoders():
 def register(reg):
     for c in simple_encoders() + abstract_encoders():
         reg.add(c)
+    reg.add(bit_contract())
     reg.add(fixed_int_encoder('octet', 0, 255, 1, False, struct.error))
     reg.add(fixed_int_encoder('short_int', -2 ** 15, 2 ** 15 - 1, 2, True, TypeError))
     reg.add(fixed_int_encoder('short_uint', 0, 2 ** 16 - 1, 2, False, TypeError))
@@ -291,3 +294,36 @@ def lemmas():
         'c11_toggle_default', True, target='contracts.lemmas.c11_toggle_default',
         params=[('first', T.bool), ('value', T.int)], legacy_of=lambda c: True, only_modes=(True,)))
     return out
+
+
+def bit_contract():
+    """encode.bit(value, byte, position): C10 -- a value other than False/True/0/1 must not
+    silently set a neighbouring bit (it decodes as a different argument)."""
+    from pyvc.sym import SBool, SInt
+    pos = TSpec([('bit%d' % k, (lambda k: lambda st, n: k)(k)) for k in range(8)])
+
+    def octet_with_bit_clear(st, name):
+        b = SInt(st.fresh_int(name))
+        return b
+    byte = TSpec([('octet', octet_with_bit_clear)])
+
+    def req(c):
+        # the accumulated octet holds only the bits below `position` (how base.Frame.marshal calls it)
+        return in_range(c.byte, 0, 2 ** c.position - 1)
+
+    def is01(c):
+        v = c.value
+        if isinstance(v, (bool, SBool)):
+            return True
+        if isinstance(v, (int, SInt)):
+            return in_range(v, 0, 1)
+        return False
+
+    def out(c):
+        return sym.mk_int(I(c.byte) + I(c.value) * (2 ** c.position))
+
+    return Contract(ENC + '.bit', [('value', T.bool | T.int | T.str | T.none | T.float), ('byte', byte), ('position', pos)],
+                    requires=req, cases=[
+        Case('flag', when=is01, returns=out),
+        Case('not-a-flag', when=lambda c: neg(is01(c)), raises=(TypeError, ValueError)),
+    ], bounded=True, doc='C04/C10: sets bit `position`; only False/True (or 0/1) are flags')
